@@ -14,6 +14,13 @@ import NiftyVerif.Lemmas.CgClassicIE
 import NiftyVerif.Lemmas.CgClassicExample
 import NiftyVerif.Lemmas.ControllersSqrt
 import NiftyVerif.Lemmas.CgClassicHist
+import NiftyVerif.Lemmas.CgClassicExact
+import NiftyVerif.Lemmas.CgClassicLast
+import NiftyVerif.Lemmas.CgClassicOptimal
+import NiftyVerif.Lemmas.CgClassicKrylov
+import NiftyVerif.Lemmas.CgClassicError
+import NiftyVerif.Lemmas.CgClassicInstances
+import Mathlib.LinearAlgebra.Dimension.Constructions
 
 set_option linter.unusedSectionVars false
 
@@ -478,6 +485,46 @@ theorem cg_stochastic_sound (S : Sys V K) (hA : S.Linear) (hP : ∀ v, S.ip v (p
     rw [e] at this
     exact this
 
+/-- **From the verdict to the distance to the solution.**  `A` coercive (`m·⟨v,v⟩ ≤ ⟨v,Av⟩`, `m > 0`; for a matrix: `m` = smallest
+    eigenvalue), `ip` positive semidefinite, `x*` a solution of `A x* = b`.  If CG with
+    `GradientNormController(tol_abs_gradnorm = t, convergence_level ≥ 1)` reports CONVERGED before its iteration limit, the
+    returned position satisfies `m·‖x − x*‖ ≤ t` (squared: `m²⟨e,e⟩ ≤ t²`). -/
+theorem cg_gradnorm_error_bound (S : Sys V K) (hA : S.Linear) (hb : S.Bilinear) (hpos : ∀ v, 0 ≤ S.ip v v)
+    (m : K) (hm : 0 < m) (hco : ∀ v, m * S.ip v v ≤ S.ip v (S.A v))
+    (hP : ∀ v, S.ip v (precond S v) = 0 → v = 0) (t : K) (level : Int) (limit : Option Int) (hl : 1 ≤ level)
+    (nreset : Int) (fuel : Nat) (E : QE V K) (hE : E.Consistent S) (xs : V) (hxs : trueGrad S xs = 0)
+    (h : (cg S (gradNorm (some t) none level limit) nreset fuel E).status = .converged) :
+    (∃ l s1, limit = some l ∧ (cg S (gradNorm (some t) none level limit) nreset fuel E).ctrl = some s1 ∧
+      l ≤ s1.itcount) ∨
+    m * m * S.ip ((cg S (gradNorm (some t) none level limit) nreset fuel E).energy.pos - xs)
+      ((cg S (gradNorm (some t) none level limit) nreset fuel E).energy.pos - xs) ≤ t * t := by
+  have hb' := residual_bounds_error hA hb hpos m hm hco
+    (cg S (gradNorm (some t) none level limit) nreset fuel E).energy.pos xs hxs
+  rcases cg_gradnorm_sound S hA hP (some t) none level limit hl nreset fuel E hE h with h0 | h1 | ⟨t', ht', _, h2⟩ |
+    ⟨t', ht', _⟩
+  · right
+    rw [h0, ip_zero_left hb] at hb'
+    exact le_trans hb' (mul_self_nonneg t)
+  · exact Or.inl h1
+  · right
+    cases ht'
+    exact le_trans hb' h2
+  · cases ht'
+
+/-- The energy gap to the solution is half the squared `A`-norm of the error, so `cg_energy_monotone` says: the `A`-norm of
+    the error decreases strictly from iterate to iterate. -/
+theorem cg_energy_gap_is_error (S : Sys V K) (hS : S.SPD) (x xs : V) (hxs : trueGrad S xs = 0) :
+    trueValue S x - trueValue S xs = S.ip (x - xs) (S.A (x - xs)) / 2 :=
+  energy_gap hS x xs hxs
+
+/-- non-vacuity: `exSys` is coercive with `m = 1` (`2x² + 2xy + 3y² ≥ x² + y²`) and has the solution `(1/5, 3/5)` -/
+example : (∀ v, (1 : ℚ) * exSys.ip v v ≤ exSys.ip v (exSys.A v)) ∧ trueGrad exSys (1 / 5, 3 / 5) = 0 := by
+  constructor
+  · intro v
+    simp only [exSys]
+    nlinarith [mul_self_nonneg (v.1 + v.2), mul_self_nonneg v.2]
+  · simp [trueGrad, exSys]; norm_num
+
 /-- Every step CG takes has a non-negative length; CG reports ERROR only through its give-up exits
     (`curv == 0`, `alpha < 0`, `gamma < 0`) or because the controller raised. -/
 theorem cg_alpha_positive_or_error (S : Sys V K) (hA : S.Linear) (c : Ctrl K τ) (nreset : Int) (fuel : Nat)
@@ -538,6 +585,111 @@ theorem cg_energy_monotone (S : Sys V K) (hS : S.SPD) (c : Ctrl K τ) (nreset : 
 example : (cg exSys (gradNorm (some (1 / 1000)) none 1 (some 10)) 20 100 (QE.at exSys (0, 0))).made.map (·.value)
     = [-25 / 36, -7 / 10] := by
   decide +kernel
+
+/-- `ConjugateGradient.__call__` never returns CONTINUE: unless the model ran out of fuel (the Python loop would still be
+    running) the returned status is CONVERGED or ERROR.  No hypothesis on the system. -/
+theorem cg_status_final (S : Sys V K) (c : Ctrl K τ) (nreset : Int) (fuel : Nat) (E : QE V K)
+    (h : (cg S c nreset fuel E).reason ≠ .fuel) :
+    (cg S c nreset fuel E).status = .converged ∨ (cg S c nreset fuel E).status = .error :=
+  (cg_last S c nreset fuel E).2 h
+
+/-- On an SPD system the returned position is never worse than the start: `E(x_out) ≤ E(x₀)`, strictly better as soon as
+    the returned energy object is not the start object (at least one step was taken). -/
+theorem cg_result_not_worse (S : Sys V K) (hS : S.SPD) (c : Ctrl K τ) (nreset : Int) (fuel : Nat)
+    (E : QE V K) (hE : E.Consistent S) :
+    trueValue S (cg S c nreset fuel E).energy.pos ≤ trueValue S E.pos ∧
+    ((cg S c nreset fuel E).energy ≠ E → trueValue S (cg S c nreset fuel E).energy.pos < trueValue S E.pos) := by
+  have hm := cg_energy_monotone S hS c nreset fuel E hE
+  have hmem := (cg_last S c nreset fuel E).1
+  rcases List.mem_cons.1 hmem with h | h
+  · exact ⟨by rw [h], fun hne => absurd h hne⟩
+  · have := (List.pairwise_cons.1 hm).1 _ h
+    exact ⟨le_of_lt this, fun _ => this⟩
+
+/-- non-vacuity (concrete evaluation): on `exSys` the run returns CONVERGED, not out of fuel -/
+example : (cg exSys (gradNorm (some (1 / 5)) none 1 (some 10)) 20 100 (QE.at exSys (0, 0))).status = .converged := by
+  decide +kernel
+
+/-! ## exact termination -/
+
+/-- **Orthogonality / conjugacy invariants of CG** (SPD `A`, linear self-adjoint definite preconditioner `P`).  Let `W` be
+    the span of the search directions of the earlier iterations.  If the residual `r` is orthogonal to `W`, the direction
+    `d` is `A`-conjugate to `W`, `P r ∈ W + K·d` and `P A W ⊆ W + K·d`, then after one CG step
+    (`r' = r − α A d`, `d' = (γ'/γ) d + P r'`) the same holds for `W + K·d`: the new residual is orthogonal to all
+    directions so far (hence `⟨r', P rᵢ⟩ = 0` for every earlier residual), the new direction is `A`-conjugate to all
+    directions so far. -/
+theorem cg_conjugacy_invariants (S : Sys V K) (hS : S.SPDP) (W : Submodule K V) (r d r' : V) (pg : K)
+    (hI : ExactInv S W r d) (hpg : pg = S.ip r d) (hpos : 0 < pg)
+    (hr' : r' = r - (pg / S.ip d (S.A d)) • S.A d) :
+    ExactInv S (W ⊔ Submodule.span K {d}) r' ((S.ip r' (precond S r') / pg) • d + precond S r') :=
+  exact_step hS hI hpg hpos hr'
+
+/-- **Exact CG terminates within `n` iterations.**  On an SPD system with a linear self-adjoint definite preconditioner in
+    a space of dimension `n`, `ConjugateGradient.__call__` performs at most `n` passes through its loop whatever the
+    controller says: with `n` units of fuel the model never runs out of fuel.  (Together with `cg_no_error_spd`: it leaves
+    through the controller or through `gamma == 0`, i.e. at the exact solution.) -/
+theorem cg_exact_in_n_steps (S : Sys V K) (hS : S.SPDP) [FiniteDimensional K V] (c : Ctrl K τ) (nreset : Int)
+    (fuel : Nat) (hfuel : Module.finrank K V ≤ fuel) (E : QE V K) (hE : E.Consistent S) :
+    (cg S c nreset fuel E).reason ≠ .fuel ∧ (cg S c nreset fuel E).iters.length ≤ Module.finrank K V :=
+  cg_exact S hS c nreset fuel hfuel E hE
+
+/-- **Optimality of what CG returns** (SPD `A`, linear self-adjoint definite `P`, finite dimension): after its `k` passes
+    through the loop the returned position `x` satisfies `x − x₀ ∈ W` for a subspace `W` of dimension exactly `k` (the span
+    of the search directions) and minimises the quadratic energy over `x₀ + W`:  `E(x) ≤ E(x + v)` for all `v ∈ W`. -/
+theorem cg_optimal_on_subspace (S : Sys V K) (hS : S.SPDP) [FiniteDimensional K V] (c : Ctrl K τ) (nreset : Int)
+    (fuel : Nat) (E : QE V K) (hE : E.Consistent S) :
+    ∃ W : Submodule K V, Module.finrank K W = (cg S c nreset fuel E).iters.length ∧
+      (cg S c nreset fuel E).energy.pos - E.pos ∈ W ∧
+      ∀ v ∈ W, trueValue S (cg S c nreset fuel E).energy.pos ≤ trueValue S ((cg S c nreset fuel E).energy.pos + v) :=
+  cg_optimal S hS c nreset fuel E hE
+
+/-- **Textbook optimality**: the subspace is the Krylov space of the preconditioned operator.  After `k` passes CG returns
+    the minimiser of the energy over `x₀ + K_k(P A, P r₀)`, `K_k = span{(P A)^j P r₀ : j < k}`, and `dim K_k = k`
+    (`r₀ = A x₀ − b`). -/
+theorem cg_optimal_on_krylov (S : Sys V K) (hS : S.SPDP) [FiniteDimensional K V] (c : Ctrl K τ) (nreset : Int)
+    (fuel : Nat) (E : QE V K) (hE : E.Consistent S) :
+    ∃ k, k = (cg S c nreset fuel E).iters.length ∧
+      Module.finrank K (krylov S (precond S (trueGrad S E.pos)) k) = k ∧
+      (cg S c nreset fuel E).energy.pos - E.pos ∈ krylov S (precond S (trueGrad S E.pos)) k ∧
+      ∀ v ∈ krylov S (precond S (trueGrad S E.pos)) k,
+        trueValue S (cg S c nreset fuel E).energy.pos ≤ trueValue S ((cg S c nreset fuel E).energy.pos + v) := by
+  rw [← hE.1]
+  exact cg_krylov S hS c nreset fuel E hE
+
+/-- With a compatible complex structure `J` (`J² = −1`, isometry of `ip`, commuting with `A` and the preconditioner —
+    multiplication by `i` for a complex Hermitian system) CG makes at most `dim_K V / 2` passes through its loop. -/
+theorem cg_exact_hermitian (S : Sys V K) (J : V → V) (hS : S.Hermitian J) [FiniteDimensional K V] (c : Ctrl K τ)
+    (nreset : Int) (fuel : Nat) (hfuel : Module.finrank K V ≤ 2 * fuel) (E : QE V K) (hE : E.Consistent S) :
+    (cg S c nreset fuel E).reason ≠ .fuel ∧ 2 * (cg S c nreset fuel E).iters.length ≤ Module.finrank K V :=
+  cg_exact_J S J hS c nreset fuel hfuel E hE
+
+/-- ... and if the controller never stops it (never raises), the position returned after those at most `n` iterations is
+    the exact solution `A x = b`, reported as CONVERGED. -/
+theorem cg_exact_solution (S : Sys V K) (hS : S.SPDP) [FiniteDimensional K V] (c : Ctrl K τ) (nreset : Int)
+    (fuel : Nat) (hfuel : Module.finrank K V ≤ fuel) (E : QE V K) (hE : E.Consistent S)
+    (hc : (cg S c nreset fuel E).reason ≠ .ctrlStart ∧ (cg S c nreset fuel E).reason ≠ .ctrlCheck ∧
+      (cg S c nreset fuel E).reason ≠ .raised) :
+    trueGrad S (cg S c nreset fuel E).energy.pos = 0 ∧ (cg S c nreset fuel E).iters.length ≤ Module.finrank K V := by
+  obtain ⟨hf, hn⟩ := cg_exact_in_n_steps S hS c nreset fuel hfuel E hE
+  have hs := cg_spd S hS.toSPD c nreset fuel E hE
+  refine ⟨?_, hn⟩
+  apply (cg_no_error_spd S hS.toSPD c nreset fuel E hE).2.2
+  obtain ⟨h1, h2, h3⟩ := hs.noGiveUp
+  obtain ⟨hc1, hc2, hc3⟩ := hc
+  clear hs hn
+  revert hf h1 h2 h3 hc1 hc2 hc3
+  generalize (cg S c nreset fuel E).reason = rs
+  intro hf h1 h2 h3 hc1 hc2 hc3
+  cases rs <;> simp_all
+
+/-- non-vacuity: `exSys` (no preconditioner) satisfies the hypotheses in dimension 2; its run has 2 iterations -/
+example : exSys.SPDP ∧ Module.finrank ℚ (ℚ × ℚ) = 2 ∧
+    (cg exSys (gradNorm (some (1 / 1000)) none 1 (some 10)) 20 100 (QE.at exSys (0, 0))).iters.length = 2 :=
+  ⟨{ exSys_spd with
+      P_add := by intro x y; rfl
+      P_smul := by intro a x; rfl
+      P_selfAdj := by intro x y; rfl },
+   by simp, by decide +kernel⟩
 
 /-! ## InversionEnabler -/
 
@@ -631,5 +783,187 @@ example : (match inversionEnabler exOp none (gradNorm (some (1 / 5 : ℚ)) none 
     (exOp.capability < 16) ∧ (ieSys exOp none exIp exNinf (1, 2) 4).Linear ∧
     (∀ v, exIp v (precond (ieSys exOp none exIp exNinf (1, 2) 4) v) = 0 → v = 0) :=
   ⟨by decide +kernel, by decide, exOp_linear _ _, exOp_definite _ _⟩
+
+/-- The CG run behind `InversionEnabler.apply(x, mode)` for **any** controller: the operator supports the inverse mode,
+    the run is `ConjugateGradient(ic, nreset=20)` on the system `op^{inverse mode} · = x` started at 0, the returned
+    field is the position it returns, and the true gradient of that system is the residual `op^{inverse mode} v − x`. -/
+theorem inversion_enabler_run (op : LinOp V) (approx : Option (LinOp V)) (hcap : op.capability < 16)
+    (c : Ctrl K τ) (ip : V → V → K) (ninfsq : V → K) (fuel : Nat) (x : V) (mode : Nat) (y : V) (run : Out V K τ)
+    (h : inversionEnabler op approx c ip ninfsq (0 : V) fuel x mode = .solved y run) :
+    op.capability &&& ieInvMode mode ≠ 0 ∧
+    run = cg (ieSys op approx ip ninfsq x mode) c 20 fuel (QE.at (ieSys op approx ip ninfsq x mode) 0) ∧
+    y = run.energy.pos ∧
+    ∀ v, trueGrad (ieSys op approx ip ninfsq x mode) v = op.apply v (ieInvMode mode) - x := by
+  obtain ⟨_, _, hsup, hrun, hy⟩ := ie_solved op approx c ip ninfsq fuel x mode y run hcap h
+  exact ⟨hsup, hrun, hy, fun v => rfl⟩
+
+/-- InversionEnabler with **GradInfNormController**: CONVERGED ⇒ the residual `g = op^{inv}(y) − x` is 0, or the limit
+    was reached, or `‖g‖∞ ≤ tol·|E(y)|` for the true quadratic energy `E(y) ≠ 0` of the returned field. -/
+theorem inversion_enabler_solves_gradinf (op : LinOp V) (approx : Option (LinOp V)) (hcap : op.capability < 16)
+    (ip : V → V → K) (ninfsq : V → K) (tol : Option K) (level : Int) (limit : Option Int) (hl : 1 ≤ level)
+    (fuel : Nat) (x : V) (mode : Nat) (y : V) (run : Out V K Unit)
+    (h : inversionEnabler op approx (gradInf tol level limit) ip ninfsq (0 : V) fuel x mode = .solved y run)
+    (hA : (ieSys op approx ip ninfsq x mode).Linear)
+    (hP : ∀ v, ip v (precond (ieSys op approx ip ninfsq x mode) v) = 0 → v = 0)
+    (hconv : run.status = .converged) :
+    let S := ieSys op approx ip ninfsq x mode
+    op.apply y (ieInvMode mode) - x = 0 ∨
+    (∃ l s1, limit = some l ∧ run.ctrl = some s1 ∧ l ≤ s1.itcount) ∨
+    (∃ t, tol = some t ∧ trueValue S y ≠ 0 ∧ 0 ≤ t ∧
+      ninfsq (op.apply y (ieInvMode mode) - x) ≤ t * t * (trueValue S y * trueValue S y)) := by
+  intro S
+  obtain ⟨_, hrun, hy, _⟩ := inversion_enabler_run op approx hcap _ ip ninfsq fuel x mode y run h
+  subst hrun
+  subst hy
+  exact cg_gradinf_sound S hA hP tol level limit hl 20 fuel _ (at_consistent _ _) hconv
+
+/-- InversionEnabler with **DeltaEnergyController**: CONVERGED ⇒ residual 0, or limit reached, or the true energies of
+    the returned field and of the position checked just before differ by less than `tol·max(|·|,|·|)`. -/
+theorem inversion_enabler_solves_deltaE (op : LinOp V) (approx : Option (LinOp V)) (hcap : op.capability < 16)
+    (ip : V → V → K) (ninfsq : V → K) (tol : K) (level : Int) (limit : Option Int) (hl : 1 ≤ level)
+    (fuel : Nat) (x : V) (mode : Nat) (y : V) (run : Out V K K)
+    (h : inversionEnabler op approx (deltaE tol level limit) ip ninfsq (0 : V) fuel x mode = .solved y run)
+    (hA : (ieSys op approx ip ninfsq x mode).Linear)
+    (hP : ∀ v, ip v (precond (ieSys op approx ip ninfsq x mode) v) = 0 → v = 0)
+    (hconv : run.status = .converged) :
+    let S := ieSys op approx ip ninfsq x mode
+    op.apply y (ieInvMode mode) - x = 0 ∨
+    (∃ l s1, limit = some l ∧ run.ctrl = some s1 ∧ l ≤ s1.itcount) ∨
+    (∃ os, run.checked = QE.at S 0 :: (os ++ [run.energy]) ∧
+      0 < max |trueValue S ((QE.at S 0 :: os).getLast (by simp)).pos| |trueValue S y| ∧
+      |trueValue S ((QE.at S 0 :: os).getLast (by simp)).pos - trueValue S y| <
+        tol * max |trueValue S ((QE.at S 0 :: os).getLast (by simp)).pos| |trueValue S y|) := by
+  intro S
+  obtain ⟨_, hrun, hy, _⟩ := inversion_enabler_run op approx hcap _ ip ninfsq fuel x mode y run h
+  subst hrun
+  subst hy
+  exact cg_deltaE_sound S hA hP tol level limit hl 20 fuel _ (at_consistent _ _) hconv
+
+/-- InversionEnabler with **AbsDeltaEnergyController**: CONVERGED ⇒ residual 0, or limit reached, or the true energies
+    of the returned field and of the position checked just before differ by less than `deltaE`. -/
+theorem inversion_enabler_solves_absdeltaE (op : LinOp V) (approx : Option (LinOp V)) (hcap : op.capability < 16)
+    (ip : V → V → K) (ninfsq : V → K) (dE : K) (level : Int) (limit : Option Int) (hl : 1 ≤ level)
+    (fuel : Nat) (x : V) (mode : Nat) (y : V) (run : Out V K K)
+    (h : inversionEnabler op approx (absDeltaE dE level limit) ip ninfsq (0 : V) fuel x mode = .solved y run)
+    (hA : (ieSys op approx ip ninfsq x mode).Linear)
+    (hP : ∀ v, ip v (precond (ieSys op approx ip ninfsq x mode) v) = 0 → v = 0)
+    (hconv : run.status = .converged) :
+    let S := ieSys op approx ip ninfsq x mode
+    op.apply y (ieInvMode mode) - x = 0 ∨
+    (∃ l s1, limit = some l ∧ run.ctrl = some s1 ∧ l ≤ s1.itcount) ∨
+    (∃ os, run.checked = QE.at S 0 :: (os ++ [run.energy]) ∧
+      |trueValue S ((QE.at S 0 :: os).getLast (by simp)).pos - trueValue S y| < dE) := by
+  intro S
+  obtain ⟨_, hrun, hy, _⟩ := inversion_enabler_run op approx hcap _ ip ninfsq fuel x mode y run h
+  subst hrun
+  subst hy
+  exact cg_absdeltaE_sound S hA hP dE level limit hl 20 fuel _ (at_consistent _ _) hconv
+
+/-- InversionEnabler with **StochasticAbsDeltaEnergyController**: CONVERGED ⇒ residual 0, or limit reached, or the
+    variance of the true energies of the last `memory_length` checked positions (returned field included) is `< deltaE²`. -/
+theorem inversion_enabler_solves_stochastic (op : LinOp V) (approx : Option (LinOp V)) (hcap : op.capability < 16)
+    (ip : V → V → K) (ninfsq : V → K) (dE : K) (level : Int) (limit : Option Int) (memLen : Int) (hl : 1 ≤ level)
+    (fuel : Nat) (x : V) (mode : Nat) (y : V) (run : Out V K (List K))
+    (h : inversionEnabler op approx (stochastic dE level limit memLen) ip ninfsq (0 : V) fuel x mode = .solved y run)
+    (hA : (ieSys op approx ip ninfsq x mode).Linear)
+    (hP : ∀ v, ip v (precond (ieSys op approx ip ninfsq x mode) v) = 0 → v = 0)
+    (hconv : run.status = .converged) :
+    let S := ieSys op approx ip ninfsq x mode
+    op.apply y (ieInvMode mode) - x = 0 ∨
+    (∃ l s1, limit = some l ∧ run.ctrl = some s1 ∧ l ≤ s1.itcount) ∨
+    (∃ os, run.checked = QE.at S 0 :: (os ++ [run.energy]) ∧
+      lastN memLen (((QE.at S 0 :: os) ++ [run.energy]).map fun E' => trueValue S E'.pos) ≠ [] ∧ 0 < dE ∧
+      varK (lastN memLen (((QE.at S 0 :: os) ++ [run.energy]).map fun E' => trueValue S E'.pos)) < dE * dE) := by
+  intro S
+  obtain ⟨_, hrun, hy, _⟩ := inversion_enabler_run op approx hcap _ ip ninfsq fuel x mode y run h
+  subst hrun
+  subst hy
+  exact cg_stochastic_sound S hA hP dE level limit memLen hl 20 fuel _ (at_consistent _ _) hconv
+
+/-- **Numerical inversion returns the solution, in terms of the error**: with a coercive operator (constant `m`) in the
+    inverse mode, an exact solution `ys` of `op^{inv} ys = x`, and `GradientNormController(tol_abs_gradnorm = t)`:
+    a CONVERGED inversion that did not stop at the iteration limit returns `y` with `m·‖y − ys‖ ≤ t`. -/
+theorem inversion_enabler_error_bound (op : LinOp V) (approx : Option (LinOp V)) (hcap : op.capability < 16)
+    (ip : V → V → K) (ninfsq : V → K) (t : K) (level : Int) (limit : Option Int) (hl : 1 ≤ level)
+    (fuel : Nat) (x : V) (mode : Nat) (y : V) (run : Out V K K)
+    (h : inversionEnabler op approx (gradNorm (some t) none level limit) ip ninfsq (0 : V) fuel x mode = .solved y run)
+    (hA : (ieSys op approx ip ninfsq x mode).Linear) (hb : (ieSys op approx ip ninfsq x mode).Bilinear)
+    (hpos : ∀ v, 0 ≤ ip v v) (m : K) (hm : 0 < m) (hco : ∀ v, m * ip v v ≤ ip v (op.apply v (ieInvMode mode)))
+    (hP : ∀ v, ip v (precond (ieSys op approx ip ninfsq x mode) v) = 0 → v = 0)
+    (ys : V) (hys : op.apply ys (ieInvMode mode) = x) (hconv : run.status = .converged) :
+    (∃ l s1, limit = some l ∧ run.ctrl = some s1 ∧ l ≤ s1.itcount) ∨ m * m * ip (y - ys) (y - ys) ≤ t * t := by
+  obtain ⟨_, hrun, hy, _⟩ := inversion_enabler_run op approx hcap _ ip ninfsq fuel x mode y run h
+  subst hrun
+  subst hy
+  have hxs : trueGrad (ieSys op approx ip ninfsq x mode) ys = 0 := by
+    show op.apply ys (ieInvMode mode) - x = 0
+    rw [hys]; simp
+  exact cg_gradnorm_error_bound (ieSys op approx ip ninfsq x mode) hA hb hpos m hm hco hP t level limit hl 20 fuel _
+    (at_consistent _ _) ys hxs hconv
+
+/-- non-vacuity (concrete evaluation, one instance): `InversionEnabler(exOp, AbsDeltaEnergyController(deltaE=1/4,
+    iteration_limit=10)).inverse_times((1,2))` goes through CG, which reports CONVERGED -/
+example : (match inversionEnabler exOp none (absDeltaE (1 / 4 : ℚ) 1 (some 10)) exIp exNinf 0 100 (1, 2) 4 with
+    | .solved _ run => decide (run.status = .converged)
+    | _ => false) = true := by
+  decide +kernel
+
+/-! ## the instances the theorems are meant for -/
+
+/-- **Complex Hermitian positive definite systems are covered.**  `V = n → ℂ` as a real vector space with
+    `ip u v = Re (uᴴ v)` (the code's `u.s_vdot(v).real`; all scalars CG multiplies with are real), `A = M ·` with `M`
+    Hermitian and `Re (xᴴ M x) > 0`, preconditioner none or `N ·` with `N` of the same kind: all hypotheses used by the
+    theorems above (`Sys.Linear`, `Sys.Bilinear`, `Sys.SPD`, `Sys.SPDP`, definiteness of the preconditioner) hold. -/
+theorem complex_hermitian_covered {n : Type} [Fintype n] (M : Matrix n n ℂ) (b : Option (n → ℂ))
+    (N : Option (Matrix n n ℂ)) (ninfsq : (n → ℂ) → ℝ) (hM : M.conjTranspose = M)
+    (hMpos : ∀ x : n → ℂ, x ≠ 0 → 0 < (star x ⬝ᵥ M.mulVec x).re)
+    (hN : ∀ N', N = some N' → N'.conjTranspose = N' ∧ ∀ x : n → ℂ, x ≠ 0 → 0 < (star x ⬝ᵥ N'.mulVec x).re) :
+    (complexSys M b N ninfsq).SPDP ∧ (complexSys M b N ninfsq).SPD ∧ (complexSys M b N ninfsq).Linear ∧
+    (complexSys M b N ninfsq).Bilinear ∧
+    (∀ v, (complexSys M b N ninfsq).ip v (precond (complexSys M b N ninfsq) v) = 0 → v = 0) := by
+  have h := complexSys_spdp M b N ninfsq hM hMpos hN
+  refine ⟨h, h.toSPD, h.lin, h.bil, ?_⟩
+  intro v hv
+  by_contra h0
+  exact absurd hv (ne_of_gt (h.P_pos v h0))
+
+/-- **Exact termination for complex Hermitian positive definite `n × n` systems** (optional Hermitian positive definite
+    preconditioner): CG makes at most `n` passes through its loop — the classical bound, although the model only sees the
+    real structure (`2n` real dimensions): multiplication by `i` is a compatible complex structure
+    (`complexSys_hermitian`), the span of the directions is closed under it and grows by two real dimensions per
+    iteration (`cg_exact_hermitian`). -/
+theorem cg_exact_complex {τ : Type} {n : ℕ} (M : Matrix (Fin n) (Fin n) ℂ) (b : Option (Fin n → ℂ))
+    (N : Option (Matrix (Fin n) (Fin n) ℂ)) (ninfsq : (Fin n → ℂ) → ℝ) (hM : M.conjTranspose = M)
+    (hMpos : ∀ x : Fin n → ℂ, x ≠ 0 → 0 < (star x ⬝ᵥ M.mulVec x).re)
+    (hN : ∀ N', N = some N' → N'.conjTranspose = N' ∧ ∀ x : Fin n → ℂ, x ≠ 0 → 0 < (star x ⬝ᵥ N'.mulVec x).re)
+    (c : Ctrl ℝ τ) (nreset : Int) (fuel : Nat) (hfuel : n ≤ fuel) (x0 : Fin n → ℂ) :
+    (cg (complexSys M b N ninfsq) c nreset fuel (QE.at (complexSys M b N ninfsq) x0)).reason ≠ .fuel ∧
+    (cg (complexSys M b N ninfsq) c nreset fuel (QE.at (complexSys M b N ninfsq) x0)).iters.length ≤ n :=
+  cg_exact_complexSys_sharp M b N ninfsq hM hMpos hN c nreset fuel hfuel x0
+
+/-- non-vacuity: `M = 2·1` on `ℂ²`, no preconditioner -/
+example : (complexSys ((2 : ℂ) • (1 : Matrix (Fin 2) (Fin 2) ℂ)) none none (fun _ => 0)).SPDP := by
+  refine (complex_hermitian_covered _ none none _ ?_ ?_ ?_).1
+  · rw [Matrix.conjTranspose_smul, Matrix.conjTranspose_one]; simp
+  · intro x hx
+    rw [Matrix.smul_mulVec, Matrix.one_mulVec, dotProduct_smul, smul_eq_mul, Complex.mul_re]
+    have := reDot_self_pos hx
+    unfold reDot at this
+    have h2re : (2 : ℂ).re = 2 := by simp
+    have h2im : (2 : ℂ).im = 0 := by simp
+    rw [h2re, h2im]
+    linarith
+  · intro N' h; cases h
+
+/-- **The driver instance is lawful**: the system `Driver/C14.lean` builds from a request (`C14Driver.sysOf`: exact
+    rational vectors `RVec N`, `RVec.matVec`, `RVec.dot`) has a linear operator and a symmetric bilinear `ip`, and the
+    module structure on `RVec N` consists of the model's own point-wise operations — so e.g. every energy object of every
+    driver run is consistent (instance of `cg_grad_invariant`/`cg_value_correct`). -/
+theorem driver_instance_lawful {N : Nat} {τ : Type} (cplx : Bool) (A : RVec.Mat N N) (b : Option (RVec N))
+    (P : Option (RVec.Mat N N)) (c : Ctrl ℚ τ) (nreset : Int) (fuel : Nat) (x : RVec N) :
+    (C14Driver.sysOf cplx A b P).Linear ∧ (C14Driver.sysOf cplx A b P).Bilinear ∧
+    (cg (C14Driver.sysOf cplx A b P) c nreset fuel (QE.make (C14Driver.sysOf cplx A b P) x none)).energy.Consistent
+      (C14Driver.sysOf cplx A b P) :=
+  ⟨sysOf_linear cplx A b P, sysOf_bilinear cplx A b P, driver_cg_consistent cplx A b P c nreset fuel x⟩
 
 end NiftyVerif.C14
